@@ -401,6 +401,13 @@ def real_groups(ctx):
         gen = paramiko.ECDSAKey(vals=(ck, ck.public_key()))
         groups.append(("ec", "ec-%d-generated" % cb, lk.routes_for("ec", "g", lk.pem_of(ck), generated=gen)
                        + [("private-file:openssh", paramiko.ECDSAKey.from_private_key(io.StringIO(lk.pem_of(ck, "openssh"))))]))
+    # keys whose public coordinates have leading zero bytes (found by scanning small scalars)
+    for cb in (256, 384, 521):
+        for (coord, k), (scalar, ck) in sorted(lk.boundary_ec_keys(cb, 20000 if ctx.thorough else 3000).items()):
+            gen = paramiko.ECDSAKey(vals=(ck, ck.public_key()))
+            groups.append(("ec", "ec-%d-scalar-%d(%s has %d leading zero bytes)" % (cb, scalar, coord, k),
+                           lk.routes_for("ec", "ec-%d-scalar-%d(%s has %d leading zero bytes)" % (cb, scalar, coord, k),
+                                         lk.pem_of(ck), generated=gen)))
     g = paramiko.ECDSAKey.generate(bits=384)
     groups.append(("ec", "ecdsa-generate()", lk.routes_for("ec", "g2", lk.pem_of(g.signing_key), generated=g)))
     groups.append(("ec", "ecdsa-256.key", lk.routes_for("ec", "b", open(lk.support("ecdsa-256.key")).read(),
